@@ -52,6 +52,11 @@ pub enum Op {
     /// the destination of an HTTP/2 tunnel (index) ends its sending direction and keeps reading:
     /// the tunnel and its outbound connection live on
     DestHalfClose(u16),
+    /// a UDP destination goes away and comes back on the same port while a flow of multiplexer
+    /// (index) points at it: datagram, destination closed, datagram (refused by the kernel),
+    /// destination back with an empty datagram towards the flow (the pending socket error
+    /// surfaces on the endpoint's read path), datagram - which must be delivered
+    UdpPeerRestart(u16, u16),
 }
 
 #[derive(Serialize, Deserialize, Debug, Clone)]
@@ -848,6 +853,81 @@ async fn run_history(c: &Case) -> Verdict {
                     m.flows.insert(100 + (dns_exchanges % 150) as u8, peer);
                 }
             }
+            Op::UdpPeerRestart(i, size) => {
+                let live: Vec<usize> = muxes.iter().enumerate().filter(|(_, m)| m.send.is_some()).map(|(k, _)| k).collect();
+                if live.is_empty() {
+                    continue;
+                }
+                let k = live[idx(*i, live.len())];
+                let size = 20 + *size as usize % 600;
+                dns_exchanges += 1;
+                let src: std::net::SocketAddr = format!("10.9.{}.1:{}", k, 6000 + dns_exchanges).parse().unwrap();
+                let Ok(peer1) = tokio::net::UdpSocket::bind("127.0.0.1:0").await else { continue };
+                let dst = peer1.local_addr().unwrap();
+                let datagram = |tag: u8| -> Vec<u8> {
+                    let mut p = vec![tag; size];
+                    p[..2].copy_from_slice(&dns_exchanges.to_be_bytes());
+                    p
+                };
+                let send = |m: &mut UdpMuxState, payload: &[u8]| -> Result<(), Violation> {
+                    let rec = crate::reference::udpmux::encode_in(&crate::reference::udpmux::Datagram { source: src, destination: dst, app_name: "app".into(), payload: payload.to_vec() });
+                    m.send.as_mut().unwrap().send_data(Bytes::from(rec), false).map_err(|e| herr("h2", e.to_string()))
+                };
+                // 1. the flow comes up
+                send(&mut muxes[k], &datagram(1))?;
+                let mut buf = vec![0u8; 2000];
+                let Ok(Ok((n, outbound))) = tokio::time::timeout(Duration::from_secs(3), peer1.recv_from(&mut buf)).await else {
+                    return viol("relay:udp-datagram-not-delivered", format!("step {}: the first datagram of a new flow never reached its destination", step));
+                };
+                ensure!(buf[..n] == datagram(1)[..], "relay:udp-datagram-differs", "step {}: payload differs", step);
+                *model.up.entry("http2").or_default() += size as u64;
+                model.udp += 1;
+                muxes[k].flows.insert(200 + (dns_exchanges % 50) as u8, outbound);
+                // 2. the destination goes away; the next datagram is refused by the kernel
+                drop(peer1);
+                let before = parse_prometheus(&world.core.verif_metrics_text());
+                let sum_before = gauge(&before, "inbound_traffic_bytes", "\"http2\"") + gauge(&before, "outbound_traffic_bytes", "\"http2\"");
+                send(&mut muxes[k], &datagram(2))?;
+                tokio::time::sleep(Duration::from_millis(60)).await;
+                // 3. it comes back on the same port and sends an empty datagram to the flow
+                let Ok(peer2) = tokio::net::UdpSocket::bind(dst).await else {
+                    crate::engine::bump("udp-port-taken-meanwhile", 1);
+                    continue;
+                };
+                let _ = peer2.send_to(&[], outbound).await;
+                tokio::time::sleep(Duration::from_millis(120)).await;
+                // whatever reached the client meanwhile (an empty record at most)
+                {
+                    let m = &mut muxes[k];
+                    let recv = m.recv.as_mut().unwrap();
+                    while let Ok(Some(Ok(b))) = tokio::time::timeout(Duration::from_millis(30), recv.data()).await {
+                        let _ = recv.flow_control().release_capacity(b.len());
+                        m.buf.extend_from_slice(&b);
+                    }
+                    let _ = take_records(&mut m.buf);
+                }
+                let after = parse_prometheus(&world.core.verif_metrics_text());
+                let d = (gauge(&after, "inbound_traffic_bytes", "\"http2\"") + gauge(&after, "outbound_traffic_bytes", "\"http2\"") - sum_before).max(0.0) as u64;
+                ensure!(d == 0 || d == size as u64, "metrics:traffic-bytes", "step {}: one datagram of {} bytes towards a destination that had gone: the counters grew by {}", step, size, d);
+                *model.up.entry("http2").or_default() += d;
+                // 4. the pair still works: through the old flow if it survived, through a fresh one if
+                //    the socket error ended it - the number of live flows is the same either way
+                send(&mut muxes[k], &datagram(3))?;
+                match tokio::time::timeout(Duration::from_secs(3), peer2.recv_from(&mut buf)).await {
+                    Ok(Ok((n, from))) => {
+                        ensure!(buf[..n] == datagram(3)[..], "relay:udp-datagram-differs", "step {}: payload differs", step);
+                        *model.up.entry("http2").or_default() += size as u64;
+                        muxes[k].flows.insert(200 + (dns_exchanges % 50) as u8, from);
+                        crate::engine::bump(if from == outbound { "flow-survived-the-destination-restart" } else { "flow-replaced-after-the-socket-error" }, 1);
+                    }
+                    _ => {
+                        return viol(
+                            "relay:udp-datagram-not-delivered",
+                            format!("step {}: after its destination had gone away and come back (socket error on the flow's read path) a datagram on the same pair never arrived: the pair is stuck", step),
+                        );
+                    }
+                }
+            }
             Op::CloseUdpMux(i) => {
                 let live: Vec<usize> = muxes.iter().enumerate().filter(|(_, m)| m.send.is_some()).map(|(k, _)| k).collect();
                 if live.is_empty() {
@@ -968,6 +1048,7 @@ impl Suite for HistorySuite {
             1 => (any::<u16>(), any::<u8>(), any::<u16>()).prop_map(|(a, b, c)| Op::UdpBurstToClosedPort(a, b, c)),
             2 => (any::<u16>(), any::<u8>(), prop_oneof![3 => Just(true), 1 => Just(false)]).prop_map(|(a, b, c)| Op::UdpDnsExchange(a, b, c)),
             2 => any::<u16>().prop_map(Op::DestHalfClose),
+            2 => (any::<u16>(), any::<u16>()).prop_map(|(a, b)| Op::UdpPeerRestart(a, b)),
         ];
         prop::collection::vec(op, 5..=30).prop_map(|ops| Case { ops }).boxed()
     }
@@ -1002,6 +1083,7 @@ impl Suite for HistorySuite {
                 Op::UdpBurstToClosedPort(..) if have_mux => v.push("udp-burst-to-closed-port"),
                 Op::UdpDnsExchange(_, _, true) if have_mux => v.push("port-53-flow-completed"),
                 Op::DestHalfClose(_) => v.push("destination-half-close"),
+                Op::UdpPeerRestart(..) if have_mux => v.push("udp-destination-restart"),
                 _ => {}
             }
         }
